@@ -83,7 +83,7 @@ func isMapInsert(in ssa.Instruction, field string) bool {
 // coOccur: from the anchor instruction every path to exit executes B, or B precedes the
 // anchor on every path (same straight-line region).
 func coOccur(fn *ssa.Function, anchor ssa.Instruction, isB func(ssa.Instruction) bool) bool {
-	if core.MustFollow(fn, core.After(anchor), isB, nil).OK {
+	if core.MustFollowDeep(fn, core.After(anchor), isB, nil).OK {
 		return true
 	}
 	// B before the anchor, with the anchor following B on all paths
@@ -94,7 +94,7 @@ func coOccur(fn *ssa.Function, anchor ssa.Instruction, isB func(ssa.Instruction)
 		}
 	})
 	for _, b := range bs {
-		if core.MustFollow(fn, core.After(b), func(in ssa.Instruction) bool { return in == anchor }, nil).OK && core.Precedes(fn, anchor, isB) {
+		if core.MustFollowDeep(fn, core.After(b), func(in ssa.Instruction) bool { return in == anchor }, nil).OK && core.PrecedesDeep(fn, anchor, isB) {
 			return true
 		}
 	}
@@ -126,7 +126,7 @@ func C08(c *core.Ctx) {
 				continue
 			}
 			n++
-			fr := core.MustFollow(pii, core.Point{Block: f.E.To, Idx: 0}, isSched, nil)
+			fr := core.MustFollowDeep(pii, core.Point{Block: f.E.To, Idx: 0}, isSched, nil)
 			det := ""
 			if !fr.OK {
 				det = fmt.Sprintf("exit at %s reached without scheduling the entry's expiry; path: %s", c.Pos(fr.Exit), p.PathString(fr.Path))
@@ -137,7 +137,7 @@ func C08(c *core.Ctx) {
 	}
 	for _, nm := range []string{"UpdateExpirationTimer", "SetExpirationTimerToNow"} {
 		if fn := c.Fn("R8.1", "fw/table", "", nm); fn != nil {
-			fr := core.MustFollow(fn, core.Point{Block: fn.Blocks[0], Idx: 0}, func(in ssa.Instruction) bool {
+			fr := core.MustFollowDeep(fn, core.Point{Block: fn.Blocks[0], Idx: 0}, func(in ssa.Instruction) bool {
 				_, ok := core.IsCall(in, core.CalleeID{Pkg: "fw/table", Recv: "PitCsTable", Name: "updatePitExpiry"})
 				return ok
 			}, nil)
@@ -145,7 +145,7 @@ func C08(c *core.Ctx) {
 		}
 	}
 	if fn := c.Fn("R8.1", "fw/table", "PitCsTree", "updatePitExpiry"); fn != nil {
-		fr := core.MustFollow(fn, core.Point{Block: fn.Blocks[0], Idx: 0}, func(in ssa.Instruction) bool {
+		fr := core.MustFollowDeep(fn, core.Point{Block: fn.Blocks[0], Idx: 0}, func(in ssa.Instruction) bool {
 			_, ok := core.IsCall(in, core.CalleeID{Pkg: "std/utils/priority_queue", Recv: "Queue", Name: "Push"}, core.CalleeID{Pkg: "std/utils/priority_queue", Recv: "Queue", Name: "Update"})
 			return ok
 		}, nil)
@@ -153,9 +153,9 @@ func C08(c *core.Ctx) {
 	}
 	// data path: satisfied entries expire now
 	if pid := c.Fn("R8.1", "fw/fw", "Thread", "processIncomingData"); pid != nil {
-		for i, ci := range core.FindCalls(pid, idSetSatisfied) {
+		for i, ci := range core.FindCallsDeep(pid, idSetSatisfied) {
 			r, _ := core.CallArgs(ci.Common())
-			ok := core.Precedes(pid, ci, func(in ssa.Instruction) bool {
+			ok := core.PrecedesDeep(pid, ci, func(in ssa.Instruction) bool {
 				cc, ok := core.IsCall(in, core.CalleeID{Pkg: "fw/table", Name: "SetExpirationTimerToNow"})
 				return ok && core.Same(cc.Args[0], r)
 			})
@@ -172,7 +172,7 @@ func C08(c *core.Ctx) {
 				return
 			}
 			nNil++
-			fr := core.MustFollow(fn, core.After(in), func(x ssa.Instruction) bool {
+			fr := core.MustFollowDeep(fn, core.After(in), func(x ssa.Instruction) bool {
 				cc, ok := core.IsCall(x, core.CalleeID{Pkg: "fw/table", Recv: "pitCsTreeNode", Name: "pruneIfEmpty"})
 				if !ok {
 					return false
@@ -224,7 +224,7 @@ func C08(c *core.Ctx) {
 			okPrune := false
 			for _, f := range core.EdgeFacts(rm, empty) {
 				if f.Holds && core.ReachableFrom(core.After(shrink), f.E.To.Instrs[0]) {
-					okPrune = core.MustFollow(rm, core.Point{Block: f.E.To, Idx: 0}, func(in ssa.Instruction) bool {
+					okPrune = core.MustFollowDeep(rm, core.Point{Block: f.E.To, Idx: 0}, func(in ssa.Instruction) bool {
 						_, ok := core.IsCall(in, core.CalleeID{Pkg: "fw/table", Recv: "pitCsTreeNode", Name: "pruneIfEmpty"})
 						return ok
 					}, nil).OK
@@ -234,10 +234,10 @@ func C08(c *core.Ctx) {
 		}
 	}
 	if up := c.Fn("R8.2", "fw/table", "PitCsTree", "Update"); up != nil {
-		pops := core.FindCalls(up, core.CalleeID{Pkg: "std/utils/priority_queue", Recv: "Queue", Name: "Pop"})
+		pops := core.FindCallsDeep(up, core.CalleeID{Pkg: "std/utils/priority_queue", Recv: "Queue", Name: "Pop"})
 		c.Floor("R8.2", "expiry-queue pops", len(pops), 1)
 		for _, pop := range pops {
-			fr := core.MustFollow(up, core.After(pop), func(in ssa.Instruction) bool {
+			fr := core.MustFollowDeep(up, core.After(pop), func(in ssa.Instruction) bool {
 				cc, ok := core.IsCall(in, core.CalleeID{Pkg: "fw/table", Recv: "PitCsTree", Name: "RemoveInterest"})
 				if !ok {
 					return false
@@ -282,7 +282,7 @@ func C08(c *core.Ctx) {
 		c.Decide(okSig, "R8.2", "reaper-timer-signals", p.Pos(up.Pos()), "the timer callback signals updateTimer", "the re-armed timer does not signal the update channel")
 	}
 	if th := c.Fn("R8.2", "fw/fw", "Thread", "Run"); th != nil {
-		ok := len(core.FindCalls(th, core.CalleeID{Pkg: "fw/table", Recv: "PitCsTable", Name: "Update"})) > 0 && len(core.FindCalls(th, core.CalleeID{Pkg: "fw/table", Recv: "DeadNonceList", Name: "RemoveExpiredEntries"})) > 0
+		ok := len(core.FindCallsDeep(th, core.CalleeID{Pkg: "fw/table", Recv: "PitCsTable", Name: "Update"})) > 0 && len(core.FindCallsDeep(th, core.CalleeID{Pkg: "fw/table", Recv: "DeadNonceList", Name: "RemoveExpiredEntries"})) > 0
 		c.Decide(ok, "R8.2", "thread-runs-reapers", p.Pos(th.Pos()), "forwarding thread calls PIT Update and DNL RemoveExpiredEntries", "the forwarding thread loop no longer drives the PIT reaper and the dead-nonce expiry")
 	}
 
@@ -465,7 +465,7 @@ func C08(c *core.Ctx) {
 					}
 					return 0, 0
 				}}
-				res := core.Gate(fn, unlinks, pos(empty))
+				res := core.GateDeep(fn, unlinks, pos(empty))
 				c.Decide(len(unlinks) > 0 && res.OK && res.PassEdges > 0, "R8.4", "prune-unlinks-only-empty-cursor:"+t[1]+"."+t[2]+":"+fld, p.Pos(fn.Pos()),
 					"a node is unlinked only on the edge asserting that the loop cursor's "+fld+" is empty",
 					t[1]+"."+t[2]+" can unlink a node whose "+fld+" is not empty (the emptiness test is missing or is made on the start node instead of the loop cursor): live entries below or at that node become unreachable")
@@ -528,7 +528,7 @@ func C08(c *core.Ctx) {
 					return
 				}
 				nE++
-				fr := core.MustFollow(fn, core.After(in), isPrune, nil)
+				fr := core.MustFollowDeep(fn, core.After(in), isPrune, nil)
 				c.Decide(fr.OK, "R8.5", "emptying-reaches-prune:"+tn+"."+m, c.Pos(in), "store that can empty the entry is followed by the prune on every path", tn+"."+m+" can empty an entry's next hops/strategy without pruning: the FIB keeps nodes beyond what its live entries require")
 			})
 		}
@@ -588,7 +588,7 @@ func C08(c *core.Ctx) {
 				return
 			}
 			n++
-			fr := core.MustFollow(fn, core.After(in), func(x ssa.Instruction) bool {
+			fr := core.MustFollowDeep(fn, core.After(in), func(x ssa.Instruction) bool {
 				_, ok := core.IsCall(x, core.CalleeID{Pkg: "fw/table", Recv: "RibEntry", Name: "pruneIfEmpty"})
 				return ok
 			}, nil)
